@@ -732,8 +732,8 @@ class Interp(object):
             if op == '!=':
                 return a is not b
         if isinstance(a, (TypeVal, ClassVal)) or isinstance(b, (TypeVal, ClassVal)):
-            ta = a.name if isinstance(a, TypeVal) else getattr(a, 'qualname', a)
-            tb = b.name if isinstance(b, TypeVal) else getattr(b, 'qualname', b)
+            ta = a.name if isinstance(a, (TypeVal, ExtFunc)) else getattr(a, 'qualname', a)
+            tb = b.name if isinstance(b, (TypeVal, ExtFunc)) else getattr(b, 'qualname', b)
             return (ta == tb) if op == '==' else (ta != tb)
         if isinstance(a, tuple) and isinstance(b, tuple):
             if op in ('==', '!='):
@@ -833,9 +833,9 @@ class Interp(object):
         if isinstance(sl, ast.Tuple):
             return tuple(self.eval_key(e, st, fr) for e in sl.elts)
         if isinstance(sl, ast.Slice):
-            return (None if sl.lower is None else self._idx(self.eval(sl.lower, st, fr), st),
-                    None if sl.upper is None else self._idx(self.eval(sl.upper, st, fr), st),
-                    None if sl.step is None else self._idx(self.eval(sl.step, st, fr), st))
+            return slice(None if sl.lower is None else self._idx(self.eval(sl.lower, st, fr), st),
+                         None if sl.upper is None else self._idx(self.eval(sl.upper, st, fr), st),
+                         None if sl.step is None else self._idx(self.eval(sl.step, st, fr), st))
         v = self.eval(sl, st, fr)
         if v is Ellipsis:
             return Ellipsis
@@ -867,16 +867,16 @@ class Interp(object):
                     return items[key]
                 except IndexError:
                     raise Raised('IndexError', 'list index out of range')
-            if isinstance(key, tuple) and len(key) == 3:
-                if all(x is None or isinstance(x, int) for x in key):
-                    r = items[slice(*key)]
+            if isinstance(key, slice):
+                if all(x is None or isinstance(x, int) for x in (key.start, key.stop, key.step)):
+                    r = items[key]
                     return st.alloc_list(r) if isinstance(obj, ListRef) else tuple(r)
             raise Unsupported("list subscript with symbolic index")
         if isinstance(obj, str):
             if isinstance(key, int):
                 return obj[key]
-            if isinstance(key, tuple) and all(x is None or isinstance(x, int) for x in key):
-                return obj[slice(*key)]
+            if isinstance(key, slice) and all(x is None or isinstance(x, int) for x in (key.start, key.stop, key.step)):
+                return obj[key]
             raise Unsupported("string subscript")
         if isinstance(obj, SymSeq):
             return obj.getitem(self, st, key)
@@ -1233,7 +1233,7 @@ class SymSeq(object):
 
     def getitem(self, interp, st, key):
         n = self.length
-        if isinstance(key, tuple) and len(key) == 3:
+        if isinstance(key, slice):
             lo, length, step = npm.slice_params(key, n)
             it = self.item
             if step == 1:
